@@ -74,6 +74,7 @@ type wire struct {
 	killFn      func(p *wpkt) bool          // deterministic drop rule applied at send time
 	delayFn     func(p *wpkt) time.Duration // deterministic extra delay applied at send time
 	envPreempt  bool
+	closeErr    [2]error // what Close of endpoint i's transport returns (the transport is closed all the same)
 	onQuiescent func()
 }
 
@@ -362,8 +363,9 @@ func (c *wconn) Close() error {
 	c.w.s.Point(vsched.OpConn, "close", nil, nil)
 	c.w.mu.Lock()
 	c.w.ep[c.id].closed = true
+	err := c.w.closeErr[c.id]
 	c.w.mu.Unlock()
-	return nil
+	return err
 }
 
 func (c *wconn) LocalAddr() net.Addr  { return wireAddr(c.id) }
